@@ -489,7 +489,15 @@ Token *tokenize_string_literal(Token *tok, Type *basety) {
     t = read_utf16_string_literal(tok->loc, tok->loc);
   else
     t = read_utf32_string_literal(tok->loc, tok->loc, basety);
+
+  // The new token stands where the old one stood.
   t->next = tok->next;
+  t->file = tok->file;
+  t->filename = tok->filename;
+  t->line_no = tok->line_no;
+  t->line_delta = tok->line_delta;
+  t->at_bol = tok->at_bol;
+  t->has_space = tok->has_space;
   return t;
 }
 
